@@ -371,3 +371,117 @@ pub fn len_fresh(wp: WP, v: &TVal, ops: &mut Ops) -> usize {
         }
     }
 }
+
+// ---------------------------------------------------------------------------
+// guarded exact-size windows for the unchecked writer (C11, memory layer 2)
+
+pub const GUARD: usize = 64;
+pub const GUARD_BYTE: u8 = 0xA5;
+
+#[derive(Debug, Default, Clone)]
+pub struct GuardReport {
+    pub head_intact: bool,
+    pub tail_intact: bool,
+    /// bytes accounted for by the writer (committed + index) at the end
+    pub accounted: usize,
+}
+
+/// The unchecked writer with an output window of exactly `size` bytes that is
+/// embedded between two pattern-filled guard regions of the same allocation.
+pub fn write_seq_unchecked_guarded(
+    bk: BK,
+    vals: &[TVal],
+    size: usize,
+    ops: &mut Ops,
+) -> Result<(Written, GuardReport), String> {
+    match bk {
+        BK::BytesMut => {
+            // Contract of this variant: `buf` aliases `trans` from offset 0
+            // (it indexes both). Layout: [window: size][tail guard].
+            let mut buf = BytesMut::zeroed(size + GUARD);
+            for b in buf[size..].iter_mut() {
+                *b = GUARD_BYTE;
+            }
+            let mut ends = Vec::new();
+            let idx;
+            unsafe {
+                let s: &'static mut [u8] = std::slice::from_raw_parts_mut(buf.as_mut_ptr(), size);
+                let mut p = TBinaryUnsafeOutputProtocol::new(&mut buf, s, false);
+                for v in vals {
+                    write_val(&mut p, v, ops).map_err(|e| format!("{}", e))?;
+                    ends.push(p.index());
+                }
+                idx = p.index();
+            }
+            let rep = GuardReport {
+                head_intact: true,
+                tail_intact: buf[size..].iter().all(|b| *b == GUARD_BYTE),
+                accounted: idx,
+            };
+            let bytes = buf[..idx.min(size)].to_vec();
+            Ok((
+                Written {
+                    bytes,
+                    ends,
+                    zc_nodes: 0,
+                    zero_copy_len: 0,
+                },
+                rep,
+            ))
+        }
+        BK::LinkedOff | BK::LinkedOn => {
+            // allocation = [window: size][tail guard: GUARD]; the writer is
+            // told about the first `size` bytes only
+            let mut lb = LinkedBytes::with_capacity(size + GUARD);
+            let base: *mut u8 = lb.bytes_mut().as_mut_ptr();
+            let cap = lb.bytes_mut().capacity();
+            if cap < size + GUARD {
+                return Err("allocation smaller than requested".into());
+            }
+            unsafe {
+                std::ptr::write_bytes(base.add(size), GUARD_BYTE, cap - size);
+            }
+            let mut ends = Vec::new();
+            let idx;
+            let zcl;
+            unsafe {
+                let s: &'static mut [u8] = std::slice::from_raw_parts_mut(base, size);
+                let mut p = TBinaryUnsafeOutputProtocol::new(&mut lb, s, bk == BK::LinkedOn);
+                for v in vals {
+                    write_val(&mut p, v, ops).map_err(|e| format!("{}", e))?;
+                    let i = p.index();
+                    ends.push(linked_len(&*p.buf_mut()) + i);
+                }
+                idx = p.index();
+                zcl = p.zero_copy_len();
+                drop(p);
+            }
+            // the tail guard: the last (cap - size) bytes of the allocation.
+            // Zero-copy payloads do not consume window bytes, so the window is
+            // never completely filled when nodes were inserted; everything
+            // from base+size on must still be intact in every case.
+            let tail_intact =
+                unsafe { std::slice::from_raw_parts(base.add(size), cap - size) }.iter().all(|b| *b == GUARD_BYTE);
+            let spare = lb.bytes_mut().capacity() - lb.bytes_mut().len();
+            if spare < idx {
+                return Err(format!("unchecked writer index {} beyond spare capacity {}", idx, spare));
+            }
+            unsafe { lb.bytes_mut().advance_mut(idx) };
+            let (bytes, zc) = flatten_linked(&lb, &[]);
+            let accounted = bytes.len();
+            Ok((
+                Written {
+                    bytes,
+                    ends,
+                    zc_nodes: zc,
+                    zero_copy_len: zcl,
+                },
+                GuardReport {
+                    head_intact: true,
+                    tail_intact,
+                    accounted,
+                },
+            ))
+        }
+    }
+}
